@@ -214,7 +214,50 @@ def write_pairs_file(file_pairs) -> None:
 # ----------------------------------------------------------------------------- correspondence
 
 
+def pred_second_selection() -> tuple[str, str] | None:
+    """the ordinary loop: select on one network, then select again on ANOTHER one (or the same after it was joined up):
+    the second answer concerns the second network only — valid pairs of ITS minima, and nothing at all once it is
+    connected"""
+    from topsearch.analysis import pair_selection as ps
+    from topsearch.sampling.exploration import NetworkSampling
+    big = {"points": [[float(i), 0.25 * (i % 3)] for i in range(8)], "energies": [-(i % 5) - 0.125 * i for i in range(8)],
+           "edges": [(0, 1), (2, 3), (4, 5)]}
+    small = {"points": [[0.0, 0.0], [1.0, 0.5], [2.5, 0.25]], "energies": [-1.0, -2.0, -0.5], "edges": [(0, 1), (1, 2)]}
+    for via in ("connect_unconnected", "select_minima"):
+        for N in (1, 2):
+            for net in (big, small, small):
+                ktn, sim, coords = build(net)
+                samp = NetworkSampling(ktn, coords, None, None, None, sim)
+                try:
+                    out = ps.connect_unconnected(ktn, sim, coords, N) if via == "connect_unconnected" else \
+                        samp.select_minima(coords, "ConnectUnconnected", N)
+                except Exception as e:  # noqa: BLE001
+                    return (f"second-selection:{via}:raises", f"{via} raised {type(e).__name__}: {e} on a network of {ktn.n_minima} minima")
+                out = [[int(a), int(b)] for a, b in out]
+                bad = check_pairs(out, ktn.n_minima)
+                if bad is None and net is small and out:
+                    bad = f"the network is connected but {out} is proposed"
+                if bad:
+                    return (f"second-selection:{via}", f"{via}(N={N}) on a network of {ktn.n_minima} minima, called after a selection "
+                            f"on another network in the same process: {bad}")
+    return None
+
+
+def canary(ctx: Ctx) -> bool:
+    """run once, before the long streams: a selector that carries pairs over from one call to the next makes every later
+    answer grow; with a failing input in hand there is no point in (and, the lists growing, no end to) the rest"""
+    if not hasattr(ctx, "_c12_canary"):
+        r = pred_second_selection()
+        ctx._c12_canary = r
+        ctx.stats.case({"stream": "predicate-second-selection"}, True)
+        if r:
+            ctx.fail(r[0], r[1], {"second_selection": True})
+    return ctx._c12_canary is not None
+
+
 def correspond(ctx: Ctx) -> None:
+    if canary(ctx):
+        return
     from topsearch.analysis import pair_selection as ps
     from topsearch.analysis.graph_properties import unconnected_component
     from topsearch.sampling.exploration import NetworkSampling
@@ -510,6 +553,35 @@ def pred_atomic_network(seed: int, N: int) -> tuple[str, str] | None:
     return None
 
 
+def pred_large_network(seed: int, nmin: int = 300) -> tuple[str, str] | None:
+    """a network with a few hundred minima (a realistic size; every network of the repository's own tests has fewer than
+    ten): valid pairs, and the N closest of every minimum, judged from the coordinates with a margin against near-ties"""
+    import random
+    from topsearch.analysis import pair_selection as ps
+    from topsearch.sampling.exploration import NetworkSampling
+    rng = random.Random(seed)
+    pts = [[rng.uniform(-9.0, 9.0) for _ in range(3)] for _ in range(nmin)]
+    net = {"points": pts, "energies": [-0.001 * k for k in range(nmin)], "edges": []}
+    ktn, sim, coords = build(net)
+    samp = NetworkSampling(ktn, coords, None, None, None, sim)
+    P = np.array(pts)
+    dist = np.linalg.norm(P[:, None, :] - P[None, :, :], axis=2).tolist()
+    for N in (1, 3):
+        want = _want_closest(dist, nmin, N, 1e-9)
+        for site, f in (("closest_enumeration", lambda: ps.closest_enumeration(ktn, sim, coords, N)),
+                        ("select_minima:ClosestEnumeration", lambda: samp.select_minima(coords, "ClosestEnumeration", N))):
+            out = f()
+            bad = check_pairs(out, nmin)
+            if bad:
+                return (f"{site}:invalid-pair:large-network", f"N={N}, {nmin} minima: {bad}")
+            if want is not None:
+                got = {frozenset((int(a), int(b))) for a, b in out}
+                if got != want:
+                    return (f"{site}:not-N-closest:large-network", f"N={N}, {nmin} minima: missing "
+                            f"{sorted(map(sorted, want - got))[:4]} extra {sorted(map(sorted, got - want))[:4]}")
+    return None
+
+
 def pred_mutation_sequence(seed: int) -> tuple[str, str] | None:
     """the explore loop on ONE network / sampler / coordinates / similarity object: select, add what a search found,
     select again, prune, select again — every selection is judged against the network as it is at that moment"""
@@ -581,8 +653,16 @@ def pred_mutation_sequence(seed: int) -> tuple[str, str] | None:
 
 
 def predicates(ctx: Ctx) -> None:
+    if canary(ctx):
+        return
     rng = ctx.rng
     deep = getattr(ctx, "deep_search", False)
+    for _k in range(ctx.scale(1, 3)):
+        sd = rng.randrange(1 << 30)
+        r = pred_large_network(sd)
+        ctx.stats.case({"stream": "predicate-large-network", "seed": sd, "minima": 300}, True)
+        if r:
+            ctx.fail(r[0], r[1], {"large_seed": sd})
     for it in range(ctx.scale(6, 40) * (3 if deep else 1)):
         sd = rng.randrange(1 << 30)
         N = rng.choice([1, 1, 2])
@@ -626,6 +706,16 @@ def predicates(ctx: Ctx) -> None:
 
 
 def replay(ctx: Ctx, data: dict) -> bool:
+    if "large_seed" in data:
+        r = pred_large_network(int(data["large_seed"]))
+        if r:
+            print(f"  {r[0]}: {r[1]}")
+        return r is None
+    if data.get("second_selection"):
+        r = pred_second_selection()
+        if r:
+            print(f"  {r[0]}: {r[1]}")
+        return r is None
     if "atomic_seed" in data or "sequence_seed" in data:
         r = pred_atomic_network(data["atomic_seed"], data["N"]) if "atomic_seed" in data else pred_mutation_sequence(data["sequence_seed"])
         if r:
